@@ -219,7 +219,20 @@ func main() {
 	verif := flag.String("verif", "/verif", "verif directory (evidence, known findings)")
 	seed := flag.Int("seed", 0, "echoed into the evidence; the analysis is deterministic")
 	list := flag.Bool("list", false, "list registered properties as JSON")
+	dumpFuncs := flag.Bool("dump-funcs", false, "print the functions declared in the repository (to regenerate BASELINE_FUNCS.json)")
 	flag.Parse()
+	if *dumpFuncs {
+		c := newCtx("", "quick", *repo, *verif)
+		c.load("", nil)
+		var names []string
+		for k := range c.declaredFuncs() {
+			names = append(names, k)
+		}
+		sort.Strings(names)
+		b, _ := json.MarshalIndent(names, "", " ")
+		fmt.Println(string(b))
+		return
+	}
 	if *list {
 		var out []map[string]string
 		var ids []string
@@ -262,6 +275,11 @@ func runProp(pd *propDef, tier, repo, verif string, seed int) int {
 			}
 		}()
 		c.load("", nil)
+		if _, nlog := c.normalize(nil); len(nlog) > 0 {
+			for _, l := range nlog {
+				c.Note("normalisation: %s", l)
+			}
+		}
 		pd.Run(c)
 		if tier == "thorough" {
 			runSelfTests(c, pd)
